@@ -12,6 +12,9 @@ command frame is written at all (C02 `*_rejected`), so nothing partial, odd-nibb
 -/
 import Switcher.Proofs.SpecEnv
 import Switcher.Props.C02
+import Switcher.Proofs.Breeze
+import Switcher.Proofs.Utf8
+import Switcher.Spec.IrSpec
 namespace Props.C01
 open Spec Model
 
@@ -203,6 +206,46 @@ theorem get_shutter_state_wellformed (cfg : Cfg) (now : Nat) (off : Int) (raw r2
     ∃ f1 f2, (runProg (prog cfg now off .getShutterState) (raw :: r2 :: rest)).1 = [f1, f2] ∧ WellFormedFrame f1 ∧ WellFormedFrame f2 := by
   obtain ⟨f1, f2, hr, h1, h2⟩ := C02.get_shutter_state_frames cfg now off raw r2 rest hcfg hnow hraw
   exact ⟨f1, f2, by rw [hr], both_wf cfg now raw hcfg hraw _ _ (Or.inr rfl) rfl f1 f2 h1 h2⟩
+
+/-- thermostat control, IR command frame (main command or separate swing command): for EVERY command text
+    (IR code of any byte length below 65442) the frame is well formed -/
+theorem breeze_command_wellformed (cfg : Cfg) (now : Nat) (raw : List Nat) (method : String) (text : List Char)
+    (hcfg : WFcfg cfg) (hraw : 12 ≤ raw.length) (hl : (utf8Encode text).length + 4 < 65536 - 90)
+    (hm : method = "control_breeze_device" ∨ method = "_control_breeze_swing_device") :
+    ∃ f, commandFrame method "BREEZE_COMMAND_PACKET" (baseEnv cfg (tsOf now) raw ++
+        [("command.length", .s (hexlify (le16 (commandPayload text).length))), ("command.command", .s (hexlify (commandPayload text)))]) = .ok f ∧
+      WellFormedFrame f := by
+  have hbytes : IsBytes (commandPayload text) := by
+    intro b hb
+    simp only [commandPayload, List.mem_append, List.mem_cons, List.mem_nil_iff, or_false] at hb
+    rcases hb with (h | h | h | h) | h
+    · omega
+    · omega
+    · omega
+    · omega
+    · exact utf8Encode_isBytes text b h
+  have hlen : (commandPayload text).length < 65536 - 90 := by simp [commandPayload]; omega
+  obtain ⟨f, hf, hw⟩ := ir_frame cfg now raw method (commandPayload text) hcfg hraw hbytes hlen hm
+  exact ⟨f, hf, wf_of_isRefWire _ _ _ _ _ f (idsOk cfg now raw hcfg hraw)
+    (by simp [Op.accepted, hlen, (isBytesB_iff _).mpr hbytes]) hw⟩
+
+/-- thermostat control, status-update frame -/
+theorem breeze_status_wellformed (cfg : Cfg) (now : Nat) (raw : List Nat) (remote : Remote) (cur : ThermoResp) (v : BreezeSettings)
+    (hcfg : WFcfg cfg) (hraw : 12 ≤ raw.length)
+    (hst : v.state ∈ ["ON", "OFF"]) (hmd : v.mode ∈ ["AUTO", "DRY", "FAN", "COOL", "HEAT"])
+    (hfan : v.fan ∈ ["LOW", "MEDIUM", "HIGH", "AUTO"]) (hsw : v.swing ∈ ["ON", "OFF"]) (tt : Nat) (htt : v.temp = tt) (ht : tt < 256) :
+    ∃ f, breezeMainFrame cfg (tsOf now) raw remote cur v true = .ok f ∧ WellFormedFrame f := by
+  obtain ⟨f, hf, hw⟩ := status_frame cfg now raw remote cur v hcfg hraw hst hmd hfan hsw tt htt ht
+  refine ⟨f, hf, wf_of_isRefWire _ _ _ _ _ f (idsOk cfg now raw hcfg hraw) ?_ hw⟩
+  have h1 : stateNum v.state < 2 := by
+    simp only [List.mem_cons, List.mem_nil_iff, or_false] at hst; rcases hst with h | h <;> rw [h] <;> decide
+  have h2 : modeNum v.mode < 256 := by
+    simp only [List.mem_cons, List.mem_nil_iff, or_false] at hmd; rcases hmd with h | h | h | h | h <;> rw [h] <;> decide
+  have h3 : fanNum v.fan < 16 := by
+    simp only [List.mem_cons, List.mem_nil_iff, or_false] at hfan; rcases hfan with h | h | h | h <;> rw [h] <;> decide
+  have h4 : swingNum v.swing < 16 := by
+    simp only [List.mem_cons, List.mem_nil_iff, or_false] at hsw; rcases hsw with h | h <;> rw [h] <;> decide
+  simp [Op.accepted, h1, h2, h3, h4, ht]
 
 /- non-vacuity: a concrete reference frame that is well formed by evaluation -/
 example : (refWire (.control true 90) cs!"01000000" cs!"ef8db35c" cs!"a123bc" cs!"18").map wellFormedB = some true := by
